@@ -223,10 +223,14 @@ EXTRA7 = {
 }
 # clauses added with the defects repaired after the fifth refactoring wave
 EXTRA8 = {
+ 'C02': "slice_dim supplies the stop of the one-element form as index + 1 or None (defect fixed in /repo 99f1ca0: 'x,-1' was empty).",
  'C03': 'The output variable of applyAlongDimensions is created with the dtype of the computed values (defect fixed in /repo cf7dfff: the mean of integers was truncated).',
  'C04': 'Every stack override accepts the keywords the package passes to .stack() and binds its locals on every path (defect fixed in /repo 16a9565).',
  'C07': "A type code taken from dtype.char maps numpy's 'S' to the character type before createVariable (defect fixed in /repo 46d9062).",
- 'C16': 'A file attribute reaches timedelta() in getTimes only through int() / float() (defect fixed in /repo bc98fd6: numpy TSTEP).',
+ 'C12': 'A TSTEP attribute of a CAMx reader computed from the first begin / end flags uses their dates as well (defect fixed in /repo e7c903c).',
+ 'C13': 'No squeeze() result of a record reader is indexed by position (defect fixed in /repo 18e2ae9: EMISSIONS files with one step, row or column).',
+ 'C16': 'A file attribute reaches timedelta() in getTimes only through int() / float() (defect fixed in /repo bc98fd6: numpy TSTEP); time2t reverses abscissae and index vector together for a descending time axis (defect fixed in /repo 0bbfed1).',
+ 'C18': 'The diaginfo text is not stripped of leading blanks (defect fixed in /repo 3a34f82); a block that repeats the first one is never added to the per-step layout (defect fixed in /repo c3b7dfd).',
  'C19': 'Header line 9 carries the units of the independent variable (defect fixed in /repo 62900c9).',
 }
 NA = {}
